@@ -115,6 +115,66 @@ func runC19(c *core.Ctx) {
 		}
 	})
 
+	if c.Tier == "thorough" {
+		// the same pairing rule swept over every other package of the repository
+		c.Clause("D1-all-packages", func() {
+			inQuick := map[string]bool{}
+			for _, r := range lockPkgs {
+				inQuick[r] = true
+			}
+			var rels []string
+			for rel := range c.P.ByPath {
+				if !inQuick[rel] && !strings.HasPrefix(rel, "vendor/") {
+					rels = append(rels, rel)
+				}
+			}
+			sort.Strings(rels)
+			nOps := 0
+			for _, rel := range rels {
+				for _, f := range c.P.FuncsIn(rel) {
+					if f.Body == nil {
+						continue
+					}
+					ops := f.LockOps()
+					acq := map[string]bool{}
+					for _, op := range ops {
+						if op.Acquire && !op.Defer {
+							acq[op.Key] = true
+						}
+					}
+					if len(acq) == 0 {
+						continue
+					}
+					leaks, complete := f.LockLeaks()
+					if !complete {
+						c.Check("lock-pairing", f.Name+"/undecided", f.PosStr(), false, "undecided: exploration bound exceeded")
+						continue
+					}
+					leaked := map[string]*core.LockLeak{}
+					for _, l := range leaks {
+						leaked[l.Key] = l
+					}
+					var keys []string
+					for k := range acq {
+						keys = append(keys, k)
+					}
+					sort.Strings(keys)
+					for _, k := range keys {
+						nOps++
+						l, bad := leaked[k]
+						pos, detail := f.PosStr(), ""
+						if bad {
+							pos = c.P.Pos(l.Ret.Pos())
+							detail = fmt.Sprintf("%s is acquired in %s and is still held at the return @%s with no deferred release", k, f.Name, pos)
+						}
+						c.Check("lock-pairing", f.Name+"/"+k, pos, !bad, detail)
+					}
+				}
+			}
+			c.Counts["lock_acquisitions_other_packages"] = nOps
+		})
+	}
+
 	c.Clause("D2", func() {
 		// acquisition summaries
 		type fset map[string]bool
